@@ -110,7 +110,7 @@ func runC11(rc *sim.RunCtx) {
 func init() {
 	Register(&sim.Check{
 		ID: "C11", Level: "exploration", Run: runC11,
-		Rule: "C01/C02 histories over the adversarial profile of vsim: list key values that extend one another or contain the separators used internally (a, ab, 'a/b_c'), siblings whose names are prefixes of one another (k1/k1x, sys/ext vs sys/extleaf, ch/alphabet, ch/betamax), lists with 2 and 3 keys declared in non-alphabetical order (k2 'b a', k3 'z m a'). Every instance path the client uses is followed through request -> tree -> cache key -> device (proto view) -> response and compared structurally (element names + key name/value maps) by the merge-model and store oracles; additionally ToPath(ToStrings(p)) through the real bound schema client and ParsePath(ToXPath(p)) are asserted on every path that flows through the run. Items carry nonalpha/special classification. (GetData on such paths is covered by C14, which attributes non-alphabetical-key items to C11.) Non-trivial = accepted transaction; distinct = C01 signature.",
+		Rule: "C01/C02 histories over the adversarial profile of vsim: list key values that extend one another or contain the separators used internally (a, ab, 'a/b_c'), siblings whose names are prefixes of one another (k1/k1x, sys/ext vs sys/extleaf, ch/alphabet, ch/betamax), lists with 2 and 3 keys declared in non-alphabetical order (k2 'b a', k3 'z m a'). Every instance path the client uses is followed through request -> tree -> cache key -> device (proto view) -> response and compared structurally (element names + key name/value maps) by the merge-model and store oracles; additionally ToPath(ToStrings(p)) through the real bound schema client and ParsePath(ToXPath(p)) are asserted on every path that flows through the run. Items carry nonalpha/special classification. (GetData on such paths is covered by C14 over the same adversarial profile.) Non-trivial = accepted transaction; distinct = C01 signature.",
 		Real: realCore, Stub: stubCore,
 		Assume:         []string{"the pure converter round trips are only evaluated on paths the simulation produces (not a cross product): see MANIFEST level_note"},
 		RequiredProbes: []string{"nonalpha-key-path", "special-char-key"},
